@@ -45,6 +45,7 @@ var (
 	ErrInvalidBlockTimestamp               = errors.New("invalid block timestamp")
 	ErrInvalidWarpSignature                = errors.New("invalid warp signature")
 	ErrExpiredChunkCert                    = errors.New("expired chunk certificate")
+	ErrUnexpectedChunk                     = errors.New("peer served a chunk other than the requested one")
 	ErrInvalidSignatureType                = errors.New("invalid signature type")
 )
 
@@ -360,6 +361,12 @@ func (n *Node[T]) Accept(ctx context.Context, block Block) (ExecutedBlock[T], er
 					defer close(result)
 					if err != nil {
 						result <- err
+						return
+					}
+
+					// the peer must serve the chunk the certificate references, not just any valid chunk
+					if response.id != chunkCert.ChunkID || response.Expiry != chunkCert.Expiry {
+						result <- fmt.Errorf("%w: requested %s (expiry %d), received %s (expiry %d)", ErrUnexpectedChunk, chunkCert.ChunkID, chunkCert.Expiry, response.id, response.Expiry)
 						return
 					}
 
